@@ -285,10 +285,12 @@ Qed.
 (* what a read may change: the three access flags of the OAM component, nothing else *)
 Definition only_oam_flags (s s' : sys) : Prop :=
   exists o', s' = set_oam o' s /\ same_engine (s_oam s) o' /\
-             o_corrupt o' = o_corrupt (s_oam s) /\ o_ppuLastAccess o' = o_ppuLastAccess (s_oam s).
+             o_corrupt o' = o_corrupt (s_oam s) /\ o_ppuLastAccess o' = o_ppuLastAccess (s_oam s) /\
+             o_write o' = o_write (s_oam s) /\ o_doubleWrite o' = o_doubleWrite (s_oam s) /\
+             (o_corrupt (s_oam s) = false -> o_read o' = o_read (s_oam s)).
 
 Lemma only_oam_flags_refl s : only_oam_flags s s.
-Proof. exists (s_oam s). split; [destruct s; reflexivity|]. split; [apply se_refl|auto]. Qed.
+Proof. exists (s_oam s). split; [destruct s; reflexivity|]. split; [apply se_refl|]. repeat split; reflexivity. Qed.
 
 Lemma oam_read_engine o a o' v : oam_read o a = Ok (o', v) -> same_engine o o'.
 Proof.
@@ -298,12 +300,22 @@ Proof.
     first [apply se_flags|apply se_refl].
 Qed.
 
+Lemma oam_read_wflags o a o' v : oam_read o a = Ok (o', v) ->
+  o_write o' = o_write o /\ o_doubleWrite o' = o_doubleWrite o /\ (o_corrupt o = false -> o_read o' = o_read o).
+Proof.
+  unfold oam_read. destruct (o_dmaRunning o); [intros X; inversion X; auto|].
+  destruct (o_corrupt o); (destruct (0xFEA0 <=? a); [intros X; inversion X; subst; cbn; auto; repeat split; auto; discriminate|]);
+    match goal with |- context [get8 ?m ?i] => destruct (get8 m i) end; cbn [bind]; intros X; inversion X; subst; cbn;
+    repeat split; auto; discriminate.
+Qed.
+
 Theorem sys_read_safe s a : bus_inv s -> a < 65536 ->
-  exists s' v, sys_read s a = Ok (s', v) /\ v < 256 /\ bus_inv s' /\ only_oam_flags s s'.
+  exists s' v, sys_read s a = Ok (s', v) /\ v < 256 /\ bus_inv s' /\ only_oam_flags s s' /\ (a < 0xFE00 -> s' = s).
 Proof.
   intros H Ha. destruct (decoder_ok a Ha) as [D _]. unfold sys_read.
-  assert (Same : forall v, v < 256 -> exists s' v', Ok (s, v) = Ok (s', v') /\ v' < 256 /\ bus_inv s' /\ only_oam_flags s s').
-  { intros v Hv. exists s, v. split; [reflexivity|]. split; [exact Hv|]. split; [exact H|apply only_oam_flags_refl]. }
+  assert (Same : forall v, v < 256 -> exists s' v', Ok (s, v) = Ok (s', v') /\ v' < 256 /\ bus_inv s' /\ only_oam_flags s s' /\
+                                                  (a < 0xFE00 -> s' = s)).
+  { intros v Hv. exists s, v. split; [reflexivity|]. split; [exact Hv|]. split; [exact H|]. split; [apply only_oam_flags_refl|reflexivity]. }
   destruct (read_handler a) eqn:E; cbn [handler_okb] in D.
   - destruct (cart_ok_read _ a (BI_cart _ H)) as (v & Ev & Hv). rewrite Ev. cbn [bind]. apply Same, Hv.
   - unfold ppu_read_vram. assert (X : (sub16 a 0x8000 <? 0x2000) = true) by (unfold sub16; lia).
@@ -314,7 +326,9 @@ Proof.
     destruct (oam_read_inv _ _ _ _ Ev (BI_oam _ H)) as [Ho Hv]. destruct (read_env _ _ _ _ Ev) as [C1 C2].
     exists (set_oam o' s), v. split; [reflexivity|]. split; [exact Hv|]. split.
     + apply bi_set_oam; [exact H|apply (lcd_inv_env _ _ _ (BI_lcd _ H)); assumption|exact Ho].
-    + exists o'. split; [reflexivity|]. split; [eapply oam_read_engine, Ev|auto].
+    + split; [|intros X; change 0xFE00 with 65024 in *; lia].
+      exists o'. split; [reflexivity|]. split; [eapply oam_read_engine, Ev|].
+      destruct (oam_read_wflags _ _ _ _ Ev) as (W1 & W2 & W3). repeat split; assumption.
   - apply Same. apply reg_read_byte, H.
   - apply Same. lia.
   - destruct (apu_wave_read_safe _ a (BI_apu _ H)) as (v & Ev & Hv). rewrite Ev. cbn [bind]. apply Same, Hv.
@@ -352,6 +366,22 @@ Proof.
 Qed.
 
 (* ---------------- the hardware half of a machine cycle ---------------- *)
+(* what no hardware step touches: the crash latch and the three pending-access flags of the OAM bug; and the PPU's
+   last OAM address stays inside OAM once it is *)
+Definition oam_flags_eq (o o' : oam) : Prop :=
+  o_read o' = o_read o /\ o_write o' = o_write o /\ o_doubleWrite o' = o_doubleWrite o.
+Definition hw_keeps (s s' : sys) : Prop :=
+  s_crash s' = s_crash s /\ oam_flags_eq (s_oam s) (s_oam s') /\ (pla_in_oam (s_oam s) -> pla_in_oam (s_oam s')).
+
+Lemma hw_keeps_refl s : hw_keeps s s. Proof. split; [reflexivity|]. split; [repeat split|auto]. Qed.
+Lemma hw_keeps_trans a b c : hw_keeps a b -> hw_keeps b c -> hw_keeps a c.
+Proof.
+  intros (A1 & (A2 & A3 & A4) & A5) (B1 & (B2 & B3 & B4) & B5).
+  split; [congruence|]. split; [repeat split; congruence|auto].
+Qed.
+Lemma hw_keeps_same_oam s s' : s_crash s' = s_crash s -> s_oam s' = s_oam s -> hw_keeps s s'.
+Proof. intros E1 E2. unfold hw_keeps, oam_flags_eq. rewrite E1, E2. split; [reflexivity|]. split; [repeat split|auto]. Qed.
+
 Lemma ints_request_bytes i m : ints_bytes i -> ints_bytes (ints_request i m).
 Proof.
   intros [A B]. unfold ints_request, ints_bytes; cbn. split; [exact A|].
@@ -392,7 +422,15 @@ Proof.
   repeat match goal with |- context [match ?x with _ => _ end] => destruct x end; repeat split.
 Qed.
 
-Theorem sys_ppu_tick_safe s : bus_inv s -> exists s', sys_ppu_tick s = Ok s' /\ bus_inv s'.
+Lemma tick_oam_flags p o : oam_flags_eq o (tick_oam p o).
+Proof.
+  unfold tick_oam, act, oam_enter_mode2, oam_exit_mode2.
+  repeat match goal with |- context [match ?x with _ => _ end] => destruct x end; repeat split.
+Qed.
+
+Theorem sys_ppu_tick_safe s : bus_inv s ->
+  exists s', sys_ppu_tick s = Ok s' /\ bus_inv s' /\ hw_keeps s s' /\
+             (p_enabled (s_ppu s) = true -> pla_in_oam (s_oam s')).
 Proof.
   intros H. pose proof H as [CI (a & HR & HW) PB OI AI WI HI TI II].
   unfold sys_ppu_tick.
@@ -414,13 +452,25 @@ Proof.
     assert (H1 : bus_inv s1).
     { subst s1. apply bi_set_ints; [|apply ints_request_bytes, II].
       apply bi_set_ppu_oam; [exact H|exists a'; split; assumption|exact PB1|exact OI1]. }
-    destruct (p_enabled (s_ppu s) && (p_mode p1 =? 3)); [|exists s1; split; [reflexivity|exact H1]].
-    match goal with |- context [if ?c then _ else _] => destruct c end; [|exists s1; split; [reflexivity|exact H1]].
+    assert (Pla1 : pla_in_oam o1) by (apply (W_pla _ _ HW'); subst a'; unfold LcdSpec.lcd_step; rewrite Hon; reflexivity).
+    assert (K1 : hw_keeps s s1 /\ (p_enabled (s_ppu s) = true -> pla_in_oam (s_oam s1))).
+    { assert (E : s_oam s1 = o1) by (subst s1; destruct s; reflexivity). rewrite E.
+      split; [|intros _; exact Pla1].
+      split; [subst s1; destruct s; reflexivity|]. rewrite E. split; [apply tick_oam_flags|intros _; exact Pla1]. }
+    destruct (p_enabled (s_ppu s) && (p_mode p1 =? 3)); [|exists s1; split; [reflexivity|split; [exact H1|exact K1]]].
+    match goal with |- context [if ?c then _ else _] => destruct c end; [|exists s1; split; [reflexivity|split; [exact H1|exact K1]]].
     match goal with |- context [fold_left _ ?xs _] =>
       destruct (render_fold_ok (scene_of p1 o1) (overlaps_of p1) (p_ly p1) xs (scene_wf_of _ _ PB1 OI1)
                                (s_frame s1) None I) as (fr' & la' & Ef & Hla) end.
     rewrite Ef. cbn [bind fst snd].
-    eexists; split; [reflexivity|]. apply bi_set_frame.
+    eexists; split; [reflexivity|].
+    assert (Pla2 : pla_in_oam match la' with Some a0 => set_ppuLastAccess o1 a0 | None => o1 end)
+      by (destruct la' as [x|]; [apply pla_of_addr, Hla|exact Pla1]).
+    assert (Fl2 : oam_flags_eq (s_oam s) match la' with Some a0 => set_ppuLastAccess o1 a0 | None => o1 end)
+      by (destruct la' as [x|]; exact (tick_oam_flags _ _)).
+    split; [|split; [|intros _; subst s1; destruct s; exact Pla2]].
+    2: { split; [subst s1; destruct s; reflexivity|]. split; [subst s1; destruct s; exact Fl2|intros _; subst s1; destruct s; exact Pla2]. }
+    apply bi_set_frame.
     assert (E1 : s_ppu s1 = p1) by (subst s1; destruct s; reflexivity).
     apply bi_set_oam; [exact H1| |].
     + rewrite E1. exists a'. split; [eapply R_oam_irrel, HR'|].
@@ -431,7 +481,7 @@ Proof.
   - (* LCD off *)
     pose proof (tick_off _ a HR Hon) as Ht. cbn [fst snd] in Ht. rewrite Ht. cbn [bind].
     pose proof (R_en _ _ HR) as En. cbn [fst] in En. rewrite En, Hon. cbn [andb].
-    eexists; split; [reflexivity|].
+    eexists; split; [reflexivity|]. split; [|split; [apply hw_keeps_same_oam; destruct s; reflexivity|intros X; discriminate X]].
     apply bi_set_ints; [|apply ints_request_bytes, II].
     apply bi_set_ppu_oam; [exact H|exists a; split; assumption|exact PB|exact OI].
 Qed.
@@ -444,44 +494,69 @@ Proof.
   destruct (o_dmaCycle o =? 161); [discriminate|]. intros X; inversion X; subst. unfold sub16. lia.
 Qed.
 
-Lemma sys_mapper_step_safe st s : bus_inv s -> exists s', sys_mapper_step st s = Ok s' /\ bus_inv s'.
+Lemma dma_source_low o a : oam_inv o -> dma_source o = Some a -> a < 0xFE00.
+Proof.
+  intros Ho. unfold dma_source. pose proof (OI_base _ Ho) as B. pose proof (OI_dma _ Ho) as D. unfold dma_ok in D.
+  change 0xDF00 with 57088 in B. change 0xFE00 with 65024.
+  destruct (o_dmaRunning o); [specialize (D eq_refl)|discriminate].
+  destruct (o_dmaCycle o =? 0) eqn:E0; [discriminate|]. destruct (o_dmaCycle o =? 1); [intros X; inversion X; subst; lia|].
+  destruct (o_dmaCycle o =? 161); [discriminate|]. intros X; inversion X; subst. unfold sub16, add16. lia.
+Qed.
+
+Lemma tick_dma_flags rd o o' : oam_tick_dma rd o = Ok o' -> oam_flags_eq o o'.
+Proof.
+  unfold oam_tick_dma. destruct (o_dmaRunning o); [|intros X; inversion X; repeat split].
+  destruct (o_dmaCycle o =? 0); [intros X; inversion X; repeat split|].
+  destruct (o_dmaCycle o =? 1); [intros X; inversion X; repeat split|].
+  destruct (o_dmaCycle o =? 161);
+    match goal with |- context [put8 ?m ?i ?x] => destruct (put8 m i x) end; cbn [bind];
+    intros X; inversion X; subst; repeat split.
+Qed.
+
+Lemma sys_mapper_step_safe st s : bus_inv s -> exists s', sys_mapper_step st s = Ok s' /\ bus_inv s' /\ hw_keeps s s'.
 Proof.
   intros H. destruct st; cbn [sys_mapper_step].
   - (* DMA *)
-    assert (S1 : exists s1, match dma_source (s_oam s) with
-                            | Some a => do r <- sys_read s a; Ok (fst r)
-                            | None => Ok s
-                            end = Ok s1 /\ bus_inv s1).
-    { destruct (dma_source (s_oam s)) as [a|] eqn:Ed; [|exists s; split; [reflexivity|exact H]].
-      destruct (sys_read_safe s a H (dma_source_lt _ _ (BI_oam _ H) Ed)) as (s' & v & Er & _ & Hs' & _).
-      rewrite Er. cbn [bind fst]. exists s'. split; [reflexivity|exact Hs']. }
-    destruct S1 as (s1 & -> & H1). cbn [bind].
+    assert (S1 : match dma_source (s_oam s) with
+                 | Some a => do r <- sys_read s a; Ok (fst r)
+                 | None => Ok s
+                 end = Ok s).
+    { destruct (dma_source (s_oam s)) as [a|] eqn:Ed; [|reflexivity].
+      destruct (sys_read_safe s a H (dma_source_lt _ _ (BI_oam _ H) Ed)) as (s' & v & Er & _ & _ & _ & Pure).
+      rewrite Er. cbn [bind fst]. rewrite (Pure (dma_source_low _ _ (BI_oam _ H) Ed)). reflexivity. }
+    rewrite S1. cbn [bind].
     set (rd := fun a => match sys_read s a with Ok r => snd r | _ => 255 end).
-    destruct (tick_dma_safe rd (s_oam s1) (OI_dma _ (BI_oam _ H1))) as (o' & Eo & _).
+    destruct (tick_dma_safe rd (s_oam s) (OI_dma _ (BI_oam _ H))) as (o' & Eo & _).
     rewrite Eo. cbn [bind]. eexists; split; [reflexivity|].
     destruct (tick_dma_env _ _ _ Eo) as [C1 C2].
-    apply bi_set_oam; [exact H1|apply (lcd_inv_env _ _ _ (BI_lcd _ H1)); assumption|].
-    eapply oam_tick_dma_inv; [|exact Eo|apply (BI_oam _ H1)].
-    intros a Ha. subst rd. cbv beta.
-    destruct (sys_read_safe s a H Ha) as (s' & v & Er & Hv & _). rewrite Er. exact Hv.
-  - eexists; split; [reflexivity|]. apply bi_set_cart; [exact H|apply cart_ok_tick, (BI_cart _ H)].
+    split.
+    + apply bi_set_oam; [exact H|apply (lcd_inv_env _ _ _ (BI_lcd _ H)); assumption|].
+      eapply oam_tick_dma_inv; [|exact Eo|apply (BI_oam _ H)].
+      intros a Ha. subst rd. cbv beta.
+      destruct (sys_read_safe s a H Ha) as (s' & v & Er & Hv & _ & _ & _). rewrite Er. exact Hv.
+    + split; [destruct s; reflexivity|]. split; [destruct s; exact (tick_dma_flags _ _ _ Eo)|].
+      destruct s; cbn in *. unfold pla_in_oam. rewrite C2. auto.
+  - eexists; split; [reflexivity|]. split; [apply bi_set_cart; [exact H|apply cart_ok_tick, (BI_cart _ H)]|].
+    apply hw_keeps_same_oam; destruct s; reflexivity.
 Qed.
 
 Lemma mapper_steps_safe l : forall s, bus_inv s ->
-  exists s', fold_left (fun r st => do x <- r; sys_mapper_step st x) l (Ok s) = Ok s' /\ bus_inv s'.
+  exists s', fold_left (fun r st => do x <- r; sys_mapper_step st x) l (Ok s) = Ok s' /\ bus_inv s' /\ hw_keeps s s'.
 Proof.
   induction l as [|st l IH]; intros s H; cbn [fold_left].
-  - exists s. split; [reflexivity|exact H].
-  - cbn [bind]. destruct (sys_mapper_step_safe st s H) as (s1 & -> & H1). apply IH, H1.
+  - exists s. split; [reflexivity|]. split; [exact H|apply hw_keeps_refl].
+  - cbn [bind]. destruct (sys_mapper_step_safe st s H) as (s1 & -> & H1 & K1).
+    destruct (IH s1 H1) as (s2 & E2 & H2 & K2). exists s2. split; [exact E2|]. split; [exact H2|eapply hw_keeps_trans; eassumption].
 Qed.
 
-Theorem sys_mapper_end_safe s : bus_inv s -> exists s', sys_mapper_end s = Ok s' /\ bus_inv s'.
+Theorem sys_mapper_end_safe s : bus_inv s -> exists s', sys_mapper_end s = Ok s' /\ bus_inv s' /\ hw_keeps s s'.
 Proof. intros H. unfold sys_mapper_end. apply mapper_steps_safe, H. Qed.
 
-Theorem sys_audio_end_safe s : bus_inv s -> exists s', sys_audio_end s = Ok s' /\ bus_inv s'.
+Theorem sys_audio_end_safe s : bus_inv s -> exists s', sys_audio_end s = Ok s' /\ bus_inv s' /\ hw_keeps s s'.
 Proof.
   intros H. unfold sys_audio_end. destruct (apu_cycle_safe _ (BI_apu _ H)) as (r & -> & Hr). cbn [bind].
-  eexists; split; [reflexivity|]. apply bi_set_samples, bi_set_apu; [exact H|exact Hr].
+  eexists; split; [reflexivity|]. split; [apply bi_set_samples, bi_set_apu; [exact H|exact Hr]|].
+  apply hw_keeps_same_oam; destruct s; reflexivity.
 Qed.
 
 Lemma timer_tick_bytes t : timer_bytes t -> timer_bytes (fst (timer_tick t)).
@@ -492,33 +567,42 @@ Qed.
 
 (* one non-CPU step of runFrame's loop body *)
 Lemma hw_step_safe st c s t : st <> FCpu -> bus_inv s ->
-  exists s' t', frame_step_run st (c, s, t) = Ok (c, s', t') /\ bus_inv s'.
+  exists s' t', frame_step_run st (c, s, t) = Ok (c, s', t') /\ bus_inv s' /\ hw_keeps s s' /\
+                (st = FPpu -> p_enabled (s_ppu s) = true -> pla_in_oam (s_oam s')).
 Proof.
   intros Hne H. destruct st; [congruence| | | | |]; cbn [frame_step_run].
-  - destruct (sys_ppu_tick_safe s H) as (s' & -> & H'). cbn [bind]. eexists; eexists; split; [reflexivity|exact H'].
-  - destruct (sys_mapper_end_safe s H) as (s' & -> & H'). cbn [bind]. eexists; eexists; split; [reflexivity|exact H'].
-  - destruct (sys_audio_end_safe s H) as (s' & -> & H'). cbn [bind]. eexists; eexists; split; [reflexivity|exact H'].
-  - eexists; eexists; split; [reflexivity|]. apply bi_set_timer; [exact H|apply timer_tick_bytes, (BI_timer _ H)].
+  - destruct (sys_ppu_tick_safe s H) as (s' & -> & H' & K' & L'). cbn [bind]. eexists; eexists; split; [reflexivity|].
+    split; [exact H'|]. split; [exact K'|intros _; exact L'].
+  - destruct (sys_mapper_end_safe s H) as (s' & -> & H' & K'). cbn [bind]. eexists; eexists; split; [reflexivity|].
+    split; [exact H'|]. split; [exact K'|discriminate].
+  - destruct (sys_audio_end_safe s H) as (s' & -> & H' & K'). cbn [bind]. eexists; eexists; split; [reflexivity|].
+    split; [exact H'|]. split; [exact K'|discriminate].
+  - eexists; eexists; split; [reflexivity|]. split; [apply bi_set_timer; [exact H|apply timer_tick_bytes, (BI_timer _ H)]|].
+    split; [apply hw_keeps_same_oam; destruct s; reflexivity|discriminate].
   - eexists; eexists; split; [reflexivity|].
-    destruct t; [apply bi_set_ints; [exact H|apply ints_request_bytes, (BI_ints _ H)]|exact H].
+    destruct t.
+    + split; [apply bi_set_ints; [exact H|apply ints_request_bytes, (BI_ints _ H)]|].
+      split; [apply hw_keeps_same_oam; destruct s; reflexivity|discriminate].
+    + split; [exact H|]. split; [apply hw_keeps_refl|discriminate].
 Qed.
 
 Lemma hw_steps_safe l : forall c s t, bus_inv s ->
   exists s' t', fold_left (fun r st => match st with FCpu => r | _ => do x <- r; frame_step_run st x end) l (Ok (c, s, t))
-                = Ok (c, s', t') /\ bus_inv s'.
+                = Ok (c, s', t') /\ bus_inv s' /\ hw_keeps s s'.
 Proof.
   induction l as [|st l IH]; intros c s t H; cbn [fold_left].
-  - exists s, t. split; [reflexivity|exact H].
+  - exists s, t. split; [reflexivity|]. split; [exact H|apply hw_keeps_refl].
   - destruct st; try (apply IH; exact H).
     all: match goal with |- context [frame_step_run ?st _] =>
-           destruct (hw_step_safe st c s t ltac:(discriminate) H) as (s1 & t1 & E1 & H1) end;
-      cbn [bind]; rewrite E1; apply IH, H1.
+           destruct (hw_step_safe st c s t ltac:(discriminate) H) as (s1 & t1 & E1 & H1 & K1 & _) end;
+      cbn [bind]; rewrite E1; destruct (IH c s1 t1 H1) as (s2 & t2 & E2 & H2 & K2);
+      exists s2, t2; (split; [exact E2|]); (split; [exact H2|eapply hw_keeps_trans; eassumption]).
 Qed.
 
 Theorem sys_hw_cycle_safe s : bus_inv s -> exists s', sys_hw_cycle s = Ok s' /\ bus_inv s'.
 Proof.
   intros H. unfold sys_hw_cycle.
-  destruct (hw_steps_safe frame_body cpu_init s false H) as (s' & t' & -> & H'). cbn [bind fst snd].
+  destruct (hw_steps_safe frame_body cpu_init s false H) as (s' & t' & -> & H' & _). cbn [bind fst snd].
   exists s'. split; [reflexivity|exact H'].
 Qed.
 
@@ -594,7 +678,7 @@ Definition bus_run (s : sys) (ops : list bus_op) : res sys :=
 Lemma bus_step_safe s o : bus_inv s -> bus_op_wf o -> exists s', bus_step s o = Ok s' /\ bus_inv s'.
 Proof.
   intros H Hw. destruct o; cbn [bus_step bus_op_wf] in *.
-  - destruct (sys_read_safe s a H Hw) as (s' & v & -> & _ & H' & _). cbn [bind fst]. exists s'. split; [reflexivity|exact H'].
+  - destruct (sys_read_safe s a H Hw) as (s' & v & -> & _ & H' & _ & _). cbn [bind fst]. exists s'. split; [reflexivity|exact H'].
   - destruct Hw. apply sys_write_safe; assumption.
   - apply sys_hw_cycle_safe, H.
   - eexists; split; [reflexivity|]. unfold sys_button. apply bi_set_joy, H.
@@ -623,4 +707,4 @@ Qed.
 
 (* every value read is a byte *)
 Theorem bus_reads_bytes s a : bus_inv s -> a < 65536 -> exists s' v, sys_read s a = Ok (s', v) /\ v < 256.
-Proof. intros H Ha. destruct (sys_read_safe s a H Ha) as (s' & v & E & Hv & _). exists s', v. auto. Qed.
+Proof. intros H Ha. destruct (sys_read_safe s a H Ha) as (s' & v & E & Hv & _ & _ & _). exists s', v. auto. Qed.
